@@ -93,78 +93,82 @@ Ops == <<
   [id |-> 16, act |-> "enc", cls |-> "ranged-template-divisor", tpl |-> <<<<110, 97, 109, 101, 44, 42, 116, 121, 112, 101, 44, 100, 105, 118, 105, 115, 111, 114, 47, 118, 97, 108, 117, 101, 115, 44, 114, 97, 110, 103, 101, 44, 117, 110, 105, 116, 44, 99, 111, 109, 109, 101, 110, 116>>, <<116, 115, 44, 83, 73, 78, 44, 44, 45, 49, 48, 48, 45, 49, 48, 48>>>>,
    def |-> <<120, 44, 44, 116, 115, 44, 49, 48>>,
    t |-> <<50, 48, 46, 48>>, b |-> <<>>, fmt |-> 0],
-  \* 17: enc x,,SIN,10 '20.0'
-  [id |-> 17, act |-> "enc", cls |-> "derived-divisor", tpl |-> <<>>,
+  \* 17: enc x,,tm,10 [templates: tm,UCH,,10-254] '0.5'
+  [id |-> 17, act |-> "enc", cls |-> "ranged-template-divisor", tpl |-> <<<<110, 97, 109, 101, 44, 42, 116, 121, 112, 101, 44, 100, 105, 118, 105, 115, 111, 114, 47, 118, 97, 108, 117, 101, 115, 44, 114, 97, 110, 103, 101, 44, 117, 110, 105, 116, 44, 99, 111, 109, 109, 101, 110, 116>>, <<116, 109, 44, 85, 67, 72, 44, 44, 49, 48, 45, 50, 53, 52>>>>,
+   def |-> <<120, 44, 44, 116, 109, 44, 49, 48>>,
+   t |-> <<48, 46, 53>>, b |-> <<>>, fmt |-> 0],
+  \* 18: enc x,,SIN,10 '20.0'
+  [id |-> 18, act |-> "enc", cls |-> "derived-divisor", tpl |-> <<>>,
    def |-> <<120, 44, 44, 83, 73, 78, 44, 49, 48>>,
    t |-> <<50, 48, 46, 48>>, b |-> <<>>, fmt |-> 0],
-  \* 18: dec x,,UCH 64
-  [id |-> 18, act |-> "dec", cls |-> "decode-number", tpl |-> <<>>,
+  \* 19: dec x,,UCH 64
+  [id |-> 19, act |-> "dec", cls |-> "decode-number", tpl |-> <<>>,
    def |-> <<120, 44, 44, 85, 67, 72>>,
    t |-> <<>>, b |-> <<100>>, fmt |-> 0],
-  \* 19: dec x,,HEX:3 0a1b2c
-  [id |-> 19, act |-> "dec", cls |-> "decode-hex", tpl |-> <<>>,
+  \* 20: dec x,,HEX:3 0a1b2c
+  [id |-> 20, act |-> "dec", cls |-> "decode-hex", tpl |-> <<>>,
    def |-> <<120, 44, 44, 72, 69, 88, 58, 51>>,
    t |-> <<>>, b |-> <<10, 27, 44>>, fmt |-> 0],
-  \* 20: dec x,,UIN 1027
-  [id |-> 20, act |-> "dec", cls |-> "decode-number", tpl |-> <<>>,
+  \* 21: dec x,,UIN 1027
+  [id |-> 21, act |-> "dec", cls |-> "decode-number", tpl |-> <<>>,
    def |-> <<120, 44, 44, 85, 73, 78>>,
    t |-> <<>>, b |-> <<16, 39>>, fmt |-> 0],
-  \* 21: dec x,,D2C c800
-  [id |-> 21, act |-> "dec", cls |-> "decode-fixed", tpl |-> <<>>,
+  \* 22: dec x,,D2C c800
+  [id |-> 22, act |-> "dec", cls |-> "decode-fixed", tpl |-> <<>>,
    def |-> <<120, 44, 44, 68, 50, 67>>,
    t |-> <<>>, b |-> <<200, 0>>, fmt |-> 0],
-  \* 22: dec x,,EXP 0000c03f
-  [id |-> 22, act |-> "dec", cls |-> "decode-float", tpl |-> <<>>,
+  \* 23: dec x,,EXP 19049e3f
+  [id |-> 23, act |-> "dec", cls |-> "decode-float", tpl |-> <<>>,
    def |-> <<120, 44, 44, 69, 88, 80>>,
-   t |-> <<>>, b |-> <<0, 0, 192, 63>>, fmt |-> 0],
-  \* 23: dec x,,PIN 0123
-  [id |-> 23, act |-> "dec", cls |-> "decode-padded", tpl |-> <<>>,
+   t |-> <<>>, b |-> <<25, 4, 158, 63>>, fmt |-> 0],
+  \* 24: dec x,,PIN 0123
+  [id |-> 24, act |-> "dec", cls |-> "decode-padded", tpl |-> <<>>,
    def |-> <<120, 44, 44, 80, 73, 78>>,
    t |-> <<>>, b |-> <<1, 35>>, fmt |-> 0],
-  \* 24: dec x,,BDA:3 010220
-  [id |-> 24, act |-> "dec", cls |-> "decode-padded", tpl |-> <<>>,
-   def |-> <<120, 44, 44, 66, 68, 65, 58, 51>>,
-   t |-> <<>>, b |-> <<1, 2, 32>>, fmt |-> 0],
-  \* 25: dec x,,BDA:3 ffff01
+  \* 25: dec x,,BDA:3 010220
   [id |-> 25, act |-> "dec", cls |-> "decode-padded", tpl |-> <<>>,
    def |-> <<120, 44, 44, 66, 68, 65, 58, 51>>,
+   t |-> <<>>, b |-> <<1, 2, 32>>, fmt |-> 0],
+  \* 26: dec x,,BDA:3 ffff01
+  [id |-> 26, act |-> "dec", cls |-> "decode-padded", tpl |-> <<>>,
+   def |-> <<120, 44, 44, 66, 68, 65, 58, 51>>,
    t |-> <<>>, b |-> <<255, 255, 1>>, fmt |-> 0],
-  \* 26: dec x,,UCH,0=off;1=on 01
-  [id |-> 26, act |-> "dec", cls |-> "decode-list", tpl |-> <<>>,
-   def |-> <<120, 44, 44, 85, 67, 72, 44, 48, 61, 111, 102, 102, 59, 49, 61, 111, 110>>,
-   t |-> <<>>, b |-> <<1>>, fmt |-> 0],
-  \* 27: dec x,,UCH,0=off;1=on 07
+  \* 27: dec x,,UCH,0=off;1=on 01
   [id |-> 27, act |-> "dec", cls |-> "decode-list", tpl |-> <<>>,
    def |-> <<120, 44, 44, 85, 67, 72, 44, 48, 61, 111, 102, 102, 59, 49, 61, 111, 110>>,
-   t |-> <<>>, b |-> <<7>>, fmt |-> 0],
-  \* 28: dec x,,SCH ff
-  [id |-> 28, act |-> "dec", cls |-> "decode-number", tpl |-> <<>>,
+   t |-> <<>>, b |-> <<1>>, fmt |-> 0],
+  \* 28: dec x,,UCH,0=off;1=on 1a
+  [id |-> 28, act |-> "dec", cls |-> "decode-list", tpl |-> <<>>,
+   def |-> <<120, 44, 44, 85, 67, 72, 44, 48, 61, 111, 102, 102, 59, 49, 61, 111, 110>>,
+   t |-> <<>>, b |-> <<26>>, fmt |-> 0],
+  \* 29: dec x,,SCH ff
+  [id |-> 29, act |-> "dec", cls |-> "decode-number", tpl |-> <<>>,
    def |-> <<120, 44, 44, 83, 67, 72>>,
    t |-> <<>>, b |-> <<255>>, fmt |-> 0],
-  \* 29: dec x,,ULG,10 41000000
-  [id |-> 29, act |-> "dec", cls |-> "decode-fixed", tpl |-> <<>>,
+  \* 30: dec x,,ULG,10 41000000
+  [id |-> 30, act |-> "dec", cls |-> "decode-fixed", tpl |-> <<>>,
    def |-> <<120, 44, 44, 85, 76, 71, 44, 49, 48>>,
    t |-> <<>>, b |-> <<65, 0, 0, 0>>, fmt |-> 0],
-  \* 30: dec x,,UCH,10 3c
-  [id |-> 30, act |-> "dec", cls |-> "derived-divisor", tpl |-> <<>>,
+  \* 31: dec x,,UCH,10 3c
+  [id |-> 31, act |-> "dec", cls |-> "derived-divisor", tpl |-> <<>>,
    def |-> <<120, 44, 44, 85, 67, 72, 44, 49, 48>>,
    t |-> <<>>, b |-> <<60>>, fmt |-> 0],
-  \* 31: dec x,,tr,10 [templates: tr,UCH,,0-50] 3c
-  [id |-> 31, act |-> "dec", cls |-> "ranged-template-divisor", tpl |-> <<<<110, 97, 109, 101, 44, 42, 116, 121, 112, 101, 44, 100, 105, 118, 105, 115, 111, 114, 47, 118, 97, 108, 117, 101, 115, 44, 114, 97, 110, 103, 101, 44, 117, 110, 105, 116, 44, 99, 111, 109, 109, 101, 110, 116>>, <<116, 114, 44, 85, 67, 72, 44, 44, 48, 45, 53, 48>>>>,
+  \* 32: dec x,,tr,10 [templates: tr,UCH,,0-50] 3c
+  [id |-> 32, act |-> "dec", cls |-> "ranged-template-divisor", tpl |-> <<<<110, 97, 109, 101, 44, 42, 116, 121, 112, 101, 44, 100, 105, 118, 105, 115, 111, 114, 47, 118, 97, 108, 117, 101, 115, 44, 114, 97, 110, 103, 101, 44, 117, 110, 105, 116, 44, 99, 111, 109, 109, 101, 110, 116>>, <<116, 114, 44, 85, 67, 72, 44, 44, 48, 45, 53, 48>>>>,
    def |-> <<120, 44, 44, 116, 114, 44, 49, 48>>,
    t |-> <<>>, b |-> <<60>>, fmt |-> 0],
-  \* 32: mk x,,UCH,10 
-  [id |-> 32, act |-> "mk", cls |-> "derived-divisor", tpl |-> <<>>,
+  \* 33: mk x,,UCH,10 
+  [id |-> 33, act |-> "mk", cls |-> "derived-divisor", tpl |-> <<>>,
    def |-> <<120, 44, 44, 85, 67, 72, 44, 49, 48>>,
    t |-> <<>>, b |-> <<>>, fmt |-> 0],
-  \* 33: mk x,,tr,10 [templates: tr,UCH,,0-50] 
-  [id |-> 33, act |-> "mk", cls |-> "ranged-template-divisor", tpl |-> <<<<110, 97, 109, 101, 44, 42, 116, 121, 112, 101, 44, 100, 105, 118, 105, 115, 111, 114, 47, 118, 97, 108, 117, 101, 115, 44, 114, 97, 110, 103, 101, 44, 117, 110, 105, 116, 44, 99, 111, 109, 109, 101, 110, 116>>, <<116, 114, 44, 85, 67, 72, 44, 44, 48, 45, 53, 48>>>>,
+  \* 34: mk x,,tr,10 [templates: tr,UCH,,0-50] 
+  [id |-> 34, act |-> "mk", cls |-> "ranged-template-divisor", tpl |-> <<<<110, 97, 109, 101, 44, 42, 116, 121, 112, 101, 44, 100, 105, 118, 105, 115, 111, 114, 47, 118, 97, 108, 117, 101, 115, 44, 114, 97, 110, 103, 101, 44, 117, 110, 105, 116, 44, 99, 111, 109, 109, 101, 110, 116>>, <<116, 114, 44, 85, 67, 72, 44, 44, 48, 45, 53, 48>>>>,
    def |-> <<120, 44, 44, 116, 114, 44, 49, 48>>,
    t |-> <<>>, b |-> <<>>, fmt |-> 0]
 >>
 
 OpIds == 1..Len(Ops)
-CoreOps == {1, 2, 4, 5, 6, 8, 11, 13, 14, 15, 19, 20, 21, 23, 25, 31}      \* representatives used for the longest histories
+CoreOps == {1, 2, 3, 4, 5, 6, 7, 8, 11, 12, 13, 14, 15, 16, 17, 20, 21, 22, 23, 24, 26, 32}      \* representatives used for the longest histories
 
 (* all op sequences of length <= L, plus (thorough) length L+1 over the core operations *)
 RECURSIVE SeqsUpTo(_, _)
@@ -189,7 +193,7 @@ IsHistory(h, L, deep) ==
 (* of a set is loaded into a fresh MessageMap (after the fixed template file tplfile), then the *)
 (* definitions are dumped (sorted) and probed.  A load is an operation of the same automaton:   *)
 (* op = the set, result = (dump, probe results).                                                *)
-LoadTemplates == <<<<110, 97, 109, 101, 44, 42, 116, 121, 112, 101, 44, 100, 105, 118, 105, 115, 111, 114, 47, 118, 97, 108, 117, 101, 115, 44, 114, 97, 110, 103, 101, 44, 117, 110, 105, 116, 44, 99, 111, 109, 109, 101, 110, 116>>, <<116, 114, 44, 85, 67, 72, 44, 44, 48, 45, 53, 48>>, <<116, 115, 44, 83, 73, 78, 44, 44, 45, 49, 48, 48, 45, 49, 48, 48>>>>
+LoadTemplates == <<<<110, 97, 109, 101, 44, 42, 116, 121, 112, 101, 44, 100, 105, 118, 105, 115, 111, 114, 47, 118, 97, 108, 117, 101, 115, 44, 114, 97, 110, 103, 101, 44, 117, 110, 105, 116, 44, 99, 111, 109, 109, 101, 110, 116>>, <<116, 114, 44, 85, 67, 72, 44, 44, 48, 45, 53, 48>>, <<116, 115, 44, 83, 73, 78, 44, 44, 45, 49, 48, 48, 45, 49, 48, 48>>, <<116, 109, 44, 85, 67, 72, 44, 44, 49, 48, 45, 50, 53, 52>>>>
 LoadSets == <<
   [tag |-> "unsigned-divisor-plain-vs-ranged-template", lines |-> <<
     \* w,c,plain,,,08,b509,0d0100,x,,UCH,10   probe: write '6.0'
@@ -205,16 +209,19 @@ LoadSets == <<
     [line |-> <<119, 44, 99, 44, 109, 111, 100, 101, 44, 44, 44, 48, 56, 44, 98, 53, 48, 57, 44, 48, 100, 48, 52, 48, 48, 44, 120, 44, 44, 85, 67, 72, 44, 48, 61, 111, 102, 102, 59, 49, 61, 111, 110>>,
      name |-> <<109, 111, 100, 101>>, probe |-> <<111, 110>>]
   >>],
-  [tag |-> "signed-divisor-plain-vs-ranged-template", lines |-> <<
+  [tag |-> "signed-and-min-only-divisor-plain-vs-ranged-template", lines |-> <<
     \* w,c,splain,,,08,b509,0e0100,x,,SIN,10   probe: write '20.0'
     [line |-> <<119, 44, 99, 44, 115, 112, 108, 97, 105, 110, 44, 44, 44, 48, 56, 44, 98, 53, 48, 57, 44, 48, 101, 48, 49, 48, 48, 44, 120, 44, 44, 83, 73, 78, 44, 49, 48>>,
      name |-> <<115, 112, 108, 97, 105, 110>>, probe |-> <<50, 48, 46, 48>>],
     \* w,c,srng,,,08,b509,0e0200,x,,ts,10   probe: write '20.0'
     [line |-> <<119, 44, 99, 44, 115, 114, 110, 103, 44, 44, 44, 48, 56, 44, 98, 53, 48, 57, 44, 48, 101, 48, 50, 48, 48, 44, 120, 44, 44, 116, 115, 44, 49, 48>>,
      name |-> <<115, 114, 110, 103>>, probe |-> <<50, 48, 46, 48>>],
-    \* w,c,big,,,08,b509,0e0300,x,,ULG   probe: write '4000000000'
-    [line |-> <<119, 44, 99, 44, 98, 105, 103, 44, 44, 44, 48, 56, 44, 98, 53, 48, 57, 44, 48, 101, 48, 51, 48, 48, 44, 120, 44, 44, 85, 76, 71>>,
-     name |-> <<98, 105, 103>>, probe |-> <<52, 48, 48, 48, 48, 48, 48, 48, 48, 48>>]
+    \* w,c,up,,,08,b509,0e0300,x,,UCH,10   probe: write '0.5'
+    [line |-> <<119, 44, 99, 44, 117, 112, 44, 44, 44, 48, 56, 44, 98, 53, 48, 57, 44, 48, 101, 48, 51, 48, 48, 44, 120, 44, 44, 85, 67, 72, 44, 49, 48>>,
+     name |-> <<117, 112>>, probe |-> <<48, 46, 53>>],
+    \* w,c,mrng,,,08,b509,0e0400,x,,tm,10   probe: write '0.5'
+    [line |-> <<119, 44, 99, 44, 109, 114, 110, 103, 44, 44, 44, 48, 56, 44, 98, 53, 48, 57, 44, 48, 101, 48, 52, 48, 48, 44, 120, 44, 44, 116, 109, 44, 49, 48>>,
+     name |-> <<109, 114, 110, 103>>, probe |-> <<48, 46, 53>>]
   >>],
   [tag |-> "multi-field-plain-vs-ranged-template", lines |-> <<
     \* w,c,a,,,08,b509,0f0100,x,,UCH,10,,,y,,UIN   probe: write '1.5;7'
